@@ -28,6 +28,10 @@
 From AnyTLS Require Export Bytes Cmd Generated Frame Reader.
 Open Scope N_scope.
 
+(* everything lives in the module Sess so that the extracted OCaml names (Sess.handle, Sess.init, ...) cannot
+   collide with the other packages' models in the single extracted file; the proof files `Import Sess` *)
+Module Sess.
+
 (* ---------------------------------------------------------------- association lists keyed by stream id *)
 Section Assoc.
   Context {A : Type}.
@@ -72,7 +76,7 @@ Definition kill (s : stream) : stream :=
   {| rd := rd_close (rd s);
      synack := match synack s with Pending => Resolved SClosed | x => x end;
      sclosed := true |}.
-Definition shut (s : stream) : stream :=
+Definition shut_stream (s : stream) : stream :=
   {| rd := rd s; synack := synack s; sclosed := true |}.
 Definition set_rd (s : stream) (r : Reader.rd) : stream :=
   {| rd := r; synack := synack s; sclosed := sclosed s |}.
@@ -86,7 +90,7 @@ Record sess := {
   gone : list (N * stream);
   next_id : N;
   peer_version : N;
-  closed : bool;
+  s_closed : bool;
   dead : bool;
   sendq : list (N * bytes)
 }.
@@ -94,9 +98,9 @@ Record sess := {
 Definition first_id (r : role) : N :=
   match r with Client => client_first_stream_id | Server => server_first_stream_id end.
 
-Definition init (c : cfg) : sess :=
+Definition init_sess (c : cfg) : sess :=
   {| tbl := []; gone := []; next_id := first_id (c_role c); peer_version := 0;
-     closed := false; dead := false; sendq := [] |}.
+     s_closed := false; dead := false; sendq := [] |}.
 
 Inductive out := Send (f : frame) | NewStream (sid : N) | Closed.
 
@@ -104,16 +108,16 @@ Definition is_client (c : cfg) : bool := match c_role c with Client => true | Se
 
 Definition with_tbl (st : sess) (t : list (N * stream)) (g : list (N * stream)) : sess :=
   {| tbl := t; gone := g; next_id := next_id st; peer_version := peer_version st;
-     closed := closed st; dead := dead st; sendq := sendq st |}.
+     s_closed := s_closed st; dead := dead st; sendq := sendq st |}.
 Definition with_pv (st : sess) (v : N) : sess :=
   {| tbl := tbl st; gone := gone st; next_id := next_id st; peer_version := v;
-     closed := closed st; dead := dead st; sendq := sendq st |}.
+     s_closed := s_closed st; dead := dead st; sendq := sendq st |}.
 Definition with_dead (st : sess) : sess :=
   {| tbl := tbl st; gone := gone st; next_id := next_id st; peer_version := peer_version st;
-     closed := closed st; dead := true; sendq := sendq st |}.
+     s_closed := s_closed st; dead := true; sendq := sendq st |}.
 Definition with_sendq (st : sess) (q : list (N * bytes)) : sess :=
   {| tbl := tbl st; gone := gone st; next_id := next_id st; peer_version := peer_version st;
-     closed := closed st; dead := dead st; sendq := q |}.
+     s_closed := s_closed st; dead := dead st; sendq := q |}.
 
 (* the entry of `sid` leaves the tables; the object survives outside with its queue sender dropped *)
 Definition detach (sid : N) (t g : list (N * stream)) : list (N * stream) * list (N * stream) :=
@@ -128,10 +132,10 @@ Definition install (sid : N) (st : sess) : sess :=
 
 (* Session::close *)
 Definition close (st : sess) : sess * list out :=
-  if closed st then (st, [])
+  if s_closed st then (st, [])
   else ({| tbl := []; gone := gone st ++ map (fun p => (fst p, kill (snd p))) (tbl st);
            next_id := next_id st; peer_version := peer_version st;
-           closed := true; dead := dead st; sendq := [] |}, [Closed]).
+           s_closed := true; dead := dead st; sendq := [] |}, [Closed]).
 
 (* ---------------------------------------------------------------- settings text (ASCII domain)
    StringMap::from_bytes: lines, split_once('='), trim both sides, last key wins; `v` parsed as u8 *)
@@ -252,7 +256,7 @@ Fixpoint handle_all (c : cfg) (st : sess) (fs : list frame) : sess * list out :=
 
 (* one iteration of recv_loop on a transport read that returned `chunk` (non-empty) *)
 Definition recv (c : cfg) (st : sess) (carry chunk : bytes) : sess * bytes * list out :=
-  if closed st || dead st then (st, carry, [])
+  if s_closed st || dead st then (st, carry, [])
   else let '(fs, carry') := feed carry chunk in
        let '(st', o) := handle_all c st fs in (st', carry', o).
 
@@ -266,7 +270,7 @@ Fixpoint recv_all (c : cfg) (st : sess) (carry : bytes) (chunks : list bytes) : 
 
 (* the transport read returned 0 / failed: close and leave the loop *)
 Definition recv_eof (st : sess) : sess * list out :=
-  if closed st || dead st then (st, [])
+  if s_closed st || dead st then (st, [])
   else let '(st', o) := close st in (with_dead st', o).
 
 (* ---------------------------------------------------------------- local operations *)
@@ -284,22 +288,33 @@ Definition data_frames (sid : N) (d : bytes) : list frame := map (mk Push sid) (
 Inductive wres := WOk | WErrClosed | WErrEncode | WErrStream.
 
 Definition write_data (st : sess) (sid : N) (d : bytes) : list out * wres :=
-  if closed st then ([], WErrClosed) else (map Send (data_frames sid d), WOk).
+  if s_closed st then ([], WErrClosed) else (map Send (data_frames sid d), WOk).
 
 Definition write_ctrl (st : sess) (f : frame) : list out * wres :=
-  if closed st then ([], WErrClosed)
+  if s_closed st then ([], WErrClosed)
   else if max_payload <? lenN (fdata f) then ([], WErrEncode)
   else ([Send f], WOk).
 
 (* open_stream *)
 Definition open (st : sess) : sess * list out * option N :=
-  if closed st then (st, [], None)
+  if s_closed st then (st, [], None)
   else
     let sid := next_id st in
     let st1 := install sid st in
     ({| tbl := tbl st1; gone := gone st1; next_id := u32_of (sid + 1); peer_version := peer_version st1;
-        closed := closed st1; dead := dead st1; sendq := sendq st1 |},
+        s_closed := s_closed st1; dead := dead st1; sendq := sendq st1 |},
      [Send (mk Syn sid [])], Some sid).
+
+(* n consecutive open_stream calls: the ids handed out *)
+Fixpoint open_many (n : nat) (st : sess) : sess * list N :=
+  match n with
+  | O => (st, [])
+  | S k =>
+      match open st with
+      | (st1, _, Some sid) => let '(st2, ids) := open_many k st1 in (st2, sid :: ids)
+      | (st1, _, None) => (st1, [])
+      end
+  end.
 
 (* stream objects are addressed as (sid, k): the k-th object ever created under sid; all but possibly
    the last are in `gone` (in creation order), the live one is in `tbl` *)
@@ -340,7 +355,7 @@ Definition read (st : sess) (sid : N) (k : nat) (cap : N) : sess * option rres :
 (* Stream::send_data / poll_write on object (sid,k): one channel item per call *)
 Definition stream_send (st : sess) (sid : N) (k : nat) (d : bytes) : sess * wres :=
   match obj st sid k with
-  | Some s => if sclosed s || closed st then (st, WErrStream)
+  | Some s => if sclosed s || s_closed st then (st, WErrStream)
               else (with_sendq st (sendq st ++ [(sid, d)]), WOk)
   | None => (st, WErrStream)
   end.
@@ -348,7 +363,7 @@ Definition stream_send (st : sess) (sid : N) (k : nat) (d : bytes) : sess * wres
 (* AsyncWrite::poll_shutdown on object (sid,k): only marks the stream closed *)
 Definition stream_shutdown (st : sess) (sid : N) (k : nat) : sess * list out :=
   match obj st sid k with
-  | Some s => (set_obj st sid k (shut s), [])
+  | Some s => (set_obj st sid k (shut_stream s), [])
   | None => (st, [])
   end.
 
@@ -357,7 +372,7 @@ Definition pump (st : sess) : sess * list out :=
   match sendq st with
   | [] => (st, [])
   | (sid, d) :: q =>
-      if closed st then (with_sendq st [], [])
+      if s_closed st then (with_sendq st [], [])
       else (with_sendq st q, fst (write_data st sid d))
   end.
 Fixpoint pump_n (n : nat) (st : sess) : sess * list out :=
@@ -366,6 +381,67 @@ Fixpoint pump_n (n : nat) (st : sess) : sess * list out :=
   | S k => let '(st1, o1) := pump st in let '(st2, o2) := pump_n k st1 in (st2, o1 ++ o2)
   end.
 Definition pump_all (st : sess) : sess * list out := pump_n (length (sendq st)) st.
+
+(* ---------------------------------------------------------------- histories (used by the C01 statements)
+   receiver side: transport reads and application reads in any interleaving *)
+Inductive rop := ORecv (chunk : bytes) | ORead (sid : N) (k : nat) (cap : N).
+Definition rlog := list (N * nat * rres).
+
+Fixpoint run_rops (c : cfg) (st : sess) (carry : bytes) (ops : list rop) : sess * bytes * rlog :=
+  match ops with
+  | [] => (st, carry, [])
+  | ORecv ch :: r =>
+      let '(st1, carry1, _) := recv c st carry ch in run_rops c st1 carry1 r
+  | ORead sid k cap :: r =>
+      match read st sid k cap with
+      | (st1, Some res) =>
+          let '(st2, c2, lg) := run_rops c st1 carry r in (st2, c2, (sid, k, res) :: lg)
+      | (st1, None) => run_rops c st1 carry r
+      end
+  end.
+
+Definition recv_chunks (ops : list rop) : list bytes :=
+  flat_map (fun o => match o with ORecv ch => [ch] | _ => [] end) ops.
+
+(* bytes object (sid,k) has handed to its reader, and whether that reader has been told EOF *)
+Definition delivered (sid : N) (k : nat) (lg : rlog) : bytes :=
+  flat_map (fun e => match e with
+                     | (s, k', RData b) => if (s =? sid) && Nat.eqb k' k then b else []
+                     | _ => []
+                     end) lg.
+Definition saw_eof (sid : N) (k : nat) (lg : rlog) : bool :=
+  existsb (fun e => match e with
+                    | (s, k', REof) => (s =? sid) && Nat.eqb k' k
+                    | _ => false
+                    end) lg.
+
+(* sender side: data submissions (already in the order in which they reach write_data_frame: a merge of the
+   per-stream orders) and control frames *)
+Inductive wop := WData (sid : N) (chunk : bytes) | WCtrl (f : frame).
+
+Definition wop_frames (o : wop) : list frame :=
+  match o with
+  | WData sid d => data_frames sid d
+  | WCtrl f => if max_payload <? lenN (fdata f) then [] else [f]
+  end.
+Definition run_wops (st : sess) (ops : list wop) : list out :=
+  flat_map (fun o => match o with
+                     | WData sid d => fst (write_data st sid d)
+                     | WCtrl f => fst (write_ctrl st f)
+                     end) ops.
+Definition sent_frames (os : list out) : list frame :=
+  flat_map (fun o => match o with Send f => [f] | _ => [] end) os.
+(* the bytes submitted for stream sid (a PSH frame passed to write_control_frame counts as data) *)
+Definition written (sid : N) (ops : list wop) : bytes :=
+  flat_map (fun o => match o with
+                     | WData s d => if s =? sid then d else []
+                     | WCtrl f => if cmd_eqb (fcmd f) Push && (fsid f =? sid) && negb (max_payload <? lenN (fdata f))
+                                  then fdata f else []
+                     end) ops.
+
+(* the padding layer is any transformation of the submitted frames into bytes that decodes back to them
+   once Waste frames are deleted (a session never submits a Waste frame itself) *)
+Definition not_padding (f : frame) : bool := negb (cmd_eqb (fcmd f) Waste).
 
 (* ---------------------------------------------------------------- sending side of end-of-stream (C08)
    The four places where a local end of input is noticed.  None of them writes anything. *)
@@ -410,7 +486,7 @@ Definition cstep (c : cfg) (sid : N) (x : sess * wait) (e : cev) : sess * wait :
   let '(st, w) := x in
   let st' :=
     match e with
-    | EFrame f => if closed st || dead st then st else fst (handle_all c st [f])
+    | EFrame f => if s_closed st || dead st then st else fst (handle_all c st [f])
     | EClose => fst (close st)
     | EEof => fst (recv_eof st)
     | ETimeout _ => st
@@ -420,6 +496,27 @@ Definition cstep (c : cfg) (sid : N) (x : sess * wait) (e : cev) : sess * wait :
 
 Definition crun (c : cfg) (sid : N) (x : sess * wait) (es : list cev) : sess * wait :=
   fold_left (cstep c sid) es x.
+
+(* specification of the opener's outcome, written from the property text: the first event among
+   {SYNACK for its id while the stream is registered, session end while registered, its own timer} decides;
+   reg = the stream is still in the tables; alive = the session still dispatches frames *)
+Fixpoint expect (sid : N) (reg alive : bool) (es : list cev) : wait :=
+  match es with
+  | [] => Waiting
+  | ETimeout s :: r => if s =? sid then Done OTimeout else expect sid reg alive r
+  | EClose :: r => if alive && reg then Done OClosed else expect sid reg false r
+  | EEof :: r => if alive && reg then Done OClosed else expect sid reg false r
+  | EFrame f :: r =>
+      if negb alive then expect sid reg alive r
+      else match fcmd f with
+           | Alert => if reg then Done OClosed else expect sid reg false r
+           | SynAck => if reg && (fsid f =? sid)
+                       then Done (if is_nil (fdata f) then OOk else OErr (fdata f))
+                       else expect sid reg alive r
+           | Fin => expect sid (reg && negb (fsid f =? sid)) alive r
+           | _ => expect sid reg alive r
+           end
+  end.
 
 (* server/handler.rs: what the handler writes after the dial *)
 Inductive dial := DialOk | DialFail (msg : bytes) | DialTimeout (msg : bytes) | DialUdp.
@@ -446,3 +543,5 @@ Definition front_end (fe : front) (o : outcome) (early : bytes) (app : list byte
       end
   | _ => [ReplyFail]
   end.
+
+End Sess.
